@@ -92,6 +92,8 @@ impl Rng {
 /// The sub-streams of one run. Adding a draw to one stream never shifts another.
 pub struct Streams {
     pub seed: u64,
+    /// index of this run in its batch (used only by enumerating mixes)
+    pub run_index: u64,
     pub ops: Rng,
     pub sched: Rng,
     pub data: Rng,
@@ -104,6 +106,7 @@ impl Streams {
         let root = Rng::new(run_seed);
         Streams {
             seed: run_seed,
+            run_index: 0,
             ops: root.fork("ops"),
             sched: root.fork("sched"),
             data: root.fork("data"),
